@@ -9,6 +9,7 @@ import (
 	"sort"
 	"strings"
 	"sync"
+	"sync/atomic"
 	"time"
 
 	"golang.org/x/tools/go/ssa"
@@ -207,7 +208,7 @@ func RunHarness(prog *ssa.Program, fn *ssa.Function, cfg *HarnessConfig) *Harnes
 				return
 			case <-tk.C:
 				mu.Lock()
-				fmt.Fprintf(os.Stderr, "  [%s %.0fs] paths=%d pending=%d active=%d outcomes=%v queries=%d\n", fn.Name(), time.Since(t0).Seconds(), hr.Paths, len(stack), active, hr.Outcomes, GlobalStats.Queries)
+				fmt.Fprintf(os.Stderr, "  [%s %.0fs] paths=%d pending=%d active=%d outcomes=%v queries=%d\n", fn.Name(), time.Since(t0).Seconds(), hr.Paths, len(stack), active, hr.Outcomes, atomic.LoadInt64(&GlobalStats.Queries))
 				mu.Unlock()
 			}
 		}
